@@ -28,7 +28,8 @@ Definition dispatch (kind : string) (args : list string) : string :=
     match args with
     | ctok :: t0 :: optoks =>
         match cfg_of_tok ctok, Z_of_dec t0, ops_of_toks optoks with
-        | Some c, Some t0, Some ops =>
+        | Some c, Some t0, Some ops0 =>
+            let ops := map (debyte c) ops0 in
             match new_session c t0 with
             | Ok s0 => out3 (join ";" (show_step5 "init" s0 :: run5 c s0 ops)) "-" "-"
             | _ => out3 "panic" "-" "-"
